@@ -35,7 +35,11 @@ extern "C" __attribute__((noinline)) void h_retarget() {
   setMockTime(100000);
   const uint32_t LIMIT = 0x1f7fffff;
   uint32_t bits[6]; uint32_t times[6];
+#ifdef MOREBITS   // thorough: a mantissa whose products cross the compact sign-bit normalisation (0x00800000), a little over a quarter of the limit (capped from 3.25 timespans on), a full mantissa one exponent below
+  bits[0] = verif_cbool() ? 0x1e008000 : (verif_cbool() ? 0x1f280000 : 0x1e7fffff);
+#else
   bits[0] = verif_cbool() ? LIMIT : (verif_cbool() ? 0x1f3fffff : 0x1e0fffff);   // the limit, half of it (a slow period is capped at the limit), a much harder one
+#endif
   times[0] = 1000;
   t.bootstrapWithGenesis(mk(1, 0, times[0], bits[0]));
   for (int h = 1; h <= 3; h++) {                                               // heights 1..3: inside the interval
